@@ -21,6 +21,8 @@
   [a, a + 8 + sz) and its payload starts at a + 8.
 -/
 import IgrisModel.C10.Lemmas
+import IgrisModel.C10.LemmasZones
+import IgrisModel.C10.LemmasIter
 namespace Igris.C10
 
 /-! ## Fixed-block pools (pool_head / igris::pool / static_object_pool)
@@ -417,5 +419,208 @@ example : ∃ s, irun ⟨IPool.init 48 16, []⟩ [.get, .get, .get, .get, .put n
     s.pool.room = 1 := ⟨_, rfl, by decide⟩
 example : ∃ s, srun (SOP.init 12 4 3) [.create, .create, .destroy 32, .create] = some s ∧ s.objs.length = 2 :=
   ⟨_, rfl, by decide⟩
+
+/-! ## One pool fed from several zones (`pool_engage` onto an existing list)
+
+`pool_init` and `pool_engage` are separate calls: a pool may be given further
+zones at any point of its life (`static_object_pool::freelist()` exists for
+that).  A history is any list of `engage base size elemsz` / `alloc` / `free c`;
+it is rejected (`none`) only for `elemsz = 0`, `size % elemsz ≠ 0` (the
+`assert`), a zone overlapping an earlier one, or `free` of a cell that is not
+allocated.  Zones may have different sizes AND different element sizes.
+`capacity zones` = the sum of `size / elemsz` over the zones engaged so far;
+`InZone z c` = `c = z.base + i * z.elemsz` for some `i < size / elemsz`. -/
+
+/-- `pool_engage` onto ANY free list: the cells of the new zone come in front,
+the list that was there stays behind them — nothing is dropped — and `avail`
+grows by exactly the number of cells of the zone -/
+theorem mpool_engage_keeps_old_list (p : Pool) (z : Zone) (hw : z.WF) :
+    (p.engageAt z.base z.size z.elemsz).free = (zcells z).reverse ++ p.free ∧
+    (p.engageAt z.base z.size z.elemsz).avail = p.avail + z.ncells := by
+  have := engageAt_eq p z hw
+  exact ⟨this, by simp only [Pool.avail, this, List.length_append, List.length_reverse, zcells_length]; omega⟩
+
+/-- every multi-zone history: the cells handed out are pairwise distinct, each is a
+cell of one of the engaged zones (inside that zone, on a cell boundary of it), and
+any two of them are disjoint byte ranges (each with the element size of its zone) -/
+theorem mpool_blocks_distinct_aligned_in_zone (ops : List MOp) (s : MState)
+    (hr : mrun MState.init ops = some s) :
+    s.live.Nodup ∧
+    (∀ c ∈ s.live, ∃ z ∈ s.zones, InZone z c ∧ z.base ≤ c ∧ c + z.elemsz ≤ z.base + z.size ∧
+      (c - z.base) % z.elemsz = 0) ∧
+    (∀ c ∈ s.live, ∀ d ∈ s.live, c ≠ d → ∀ z ∈ s.zones, ∀ w ∈ s.zones, InZone z c → InZone w d →
+      c + z.elemsz ≤ d ∨ d + w.elemsz ≤ c) := by
+  have hi := mrun_inv MInv.init hr
+  have hf := hi.facts
+  refine ⟨hf.1, fun c hc => ?_, fun c _ d _ hne z hz w hw hzc hwd => ?_⟩
+  · obtain ⟨z, hz, hin⟩ := hf.2.2.2.1 c (Or.inl hc)
+    exact ⟨z, hz, hin, hin.range (hi.wf z hz)⟩
+  · rcases zones_eq_or_disjoint hi.disj hz hw with rfl | hd
+    · exact cells_of_one_zone hzc hwd hne
+    · exact cells_of_disjoint_zones (hi.wf z hz) (hi.wf w hw) hd hzc hwd
+
+/-- a successful `pool_alloc` returns a cell that was not handed out before -/
+theorem mpool_alloc_fresh (ops : List MOp) (s s' : MState) (c : Nat)
+    (hr : mrun MState.init ops = some s) (ha : mstep s .alloc = some (s', some c)) :
+    c ∉ s.live ∧ s'.live = c :: s.live := by
+  have hi := mrun_inv MInv.init hr
+  have hf' := (mstep_inv hi ha).facts
+  simp only [mstep, Pool.alloc] at ha
+  cases hfr : s.pool.free with
+  | nil => rw [hfr] at ha; simp at ha
+  | cons c' rest =>
+    rw [hfr] at ha; simp only [Option.some.injEq, Prod.mk.injEq] at ha
+    obtain ⟨rfl, hc⟩ := ha
+    cases hc
+    exact ⟨by have := hf'.1; simp only [List.nodup_cons] at this; exact this.1, rfl⟩
+
+/-- `pool_alloc` answers null exactly when as many cells are handed out as ALL
+zones engaged so far contain -/
+theorem mpool_null_iff_exhausted (ops : List MOp) (s : MState) (hr : mrun MState.init ops = some s) :
+    s.pool.alloc.1 = none ↔ s.live.length = capacity s.zones := by
+  have hf := (mrun_inv MInv.init hr).facts.2.2.2.2
+  simp only [Pool.alloc]
+  cases hfr : s.pool.free with
+  | nil => simp [hfr] at hf ⊢; exact hf
+  | cons c rest => simp [hfr] at hf ⊢; omega
+
+/-- … so after any history, `k` further allocations give `min (live + k) capacity`
+cells: exactly the capacity (the sum over the zones) is handed out before null -/
+theorem mpool_exactly_capacity (ops : List MOp) (s s' : MState) (k : Nat)
+    (hr : mrun MState.init ops = some s) (hk : mrun s (List.replicate k .alloc) = some s') :
+    s'.live.length = min (s.live.length + k) (capacity s.zones) :=
+  (mrun_allocs k s s' (mrun_inv MInv.init hr) hk).1
+
+/-- `pool_avail` = capacity − live cells after every multi-zone history -/
+theorem mpool_avail_eq (ops : List MOp) (s : MState) (hr : mrun MState.init ops = some s) :
+    s.pool.avail = capacity s.zones - s.live.length ∧ s.live.length ≤ capacity s.zones := by
+  have hf := (mrun_inv MInv.init hr).facts.2.2.2.2
+  simp only [Pool.avail]; omega
+
+/-- a freed cell is allocatable again, also when further zones are engaged in
+between: it stays on the free list until it is handed out -/
+theorem mpool_freed_cell_allocatable (s s1 : MState) (c : Nat) (r : Option Nat)
+    (hf : mstep s (.free c) = some (s1, r)) :
+    (∃ s2, mstep s1 .alloc = some (s2, some c)) ∧
+    ∀ b sz e s2 r2, mstep s1 (.engage b sz e) = some (s2, r2) → c ∈ s2.pool.free := by
+  simp only [mstep] at hf
+  split at hf
+  · cases hf
+    refine ⟨⟨⟨⟨s.pool.free⟩, c :: s.live.erase c, s.zones⟩, by simp [mstep, Pool.alloc, Pool.release]⟩, ?_⟩
+    intro b sz e s2 r2 he
+    simp only [mstep] at he
+    split at he
+    · cases he
+    · rename_i hc
+      split at he
+      · simp only [Option.some.injEq, Prod.mk.injEq] at he
+        obtain ⟨rfl, _⟩ := he
+        have hwz : (⟨b, sz, e⟩ : Zone).WF := by refine ⟨?_, ?_⟩ <;> simp only <;> omega
+        have := engageAt_eq (s.pool.release c).1 ⟨b, sz, e⟩ hwz
+        simp only at this ⊢
+        rw [this]; simp [Pool.release]
+      · cases he
+  · cases hf
+
+/-- the stores of `pool_engage` (one link per cell) stay inside the zone being
+engaged: cells handed out from other zones keep their contents -/
+theorem mpool_engage_stores_inside_zone (b n e fuel : Nat) (he : 8 ≤ e) :
+    ∀ ev ∈ engageEvs e (b + n * e) fuel b, ev.Inside b (b + n * e) := by
+  have := engageEvs_inside e b n he fuel 0 (Nat.zero_le _)
+  simpa using this
+
+/-- the `next`-pointer routines implement every multi-zone history: the same
+pointers are returned and the links always represent the model's list (`head` =
+address of `pool->free_blocks`, outside every zone) -/
+theorem mpool_ptr_refines (s s' : MState) (op : MOp) (r : Option Nat) (m : Links) (head : Nat)
+    (ops : List MOp) (hr0 : mrun MState.init ops = some s) (hr : Rep m head s.pool.free)
+    (hs : mstep s op = some (s', r))
+    (hh : ∀ z ∈ s'.zones, head < z.base ∨ z.base + z.size ≤ head) :
+    (mstepP m head op).2 = r ∧ Rep (mstepP m head op).1 head s'.pool.free :=
+  mstepP_rep (mrun_inv MInv.init hr0) hr hs hh
+
+theorem mpool_ptr_run_refines (ops : List MOp) (s : MState) (m : Links) (head : Nat)
+    (hs : mrun MState.init ops = some s)
+    (hh : ∀ z ∈ s.zones, head < z.base ∨ z.base + z.size ≤ head) :
+    Rep (mrunP head (slistInit m head) ops) head s.pool.free :=
+  mrunP_rep MInv.init (by simpa [MState.init, Pool.init] using rep_init m head) hs hh
+
+/-! ### static_object_pool: object lifetimes, with zones added through `freelist()` -/
+
+/-- every history of create / destroy / engage-through-`freelist()`: per cell the
+constructor ran exactly once more than the destructor when an object lives there
+and exactly as often otherwise (constructed once, destroyed once, never
+constructed over a live object); objects are distinct cells of the storage or of
+an engaged zone, large enough for `T`; `avail()` = total cells − live objects -/
+theorem sopx_lifetimes (szT alT cap : Nat) (ops : List SXOp) (p : SOPx)
+    (hr : sxrun (storageSize szT alT) (SOPx.init szT alT cap) ops = some p) :
+    p.sop.fault = false ∧ p.sop.objs.Nodup ∧
+    (∀ c, p.ctor.count c = p.dtor.count c + (if c ∈ p.sop.objs then 1 else 0)) ∧
+    p.sop.avail = capacity p.zones - p.sop.objs.length ∧ p.sop.objs.length ≤ capacity p.zones ∧
+    szT ≤ storageSize szT alT ∧
+    ∀ c ∈ p.sop.objs, ∃ z ∈ p.zones, z.elemsz = storageSize szT alT ∧ z.base ≤ c ∧
+      c + storageSize szT alT ≤ z.base + z.size ∧ (c - z.base) % storageSize szT alT = 0 := by
+  have hi := sxrun_inv (SXInv.init szT alT cap) hr
+  have hf := hi.m.facts
+  simp only at hf
+  refine ⟨hi.fault, hf.1, hi.ledger, by simp only [SOP.avail, Pool.avail]; omega, by omega, ?_, fun c hc => ?_⟩
+  · have := storageSize_ge szT alT; have := Nat.le_max_left szT 8; omega
+  · obtain ⟨z, hz, hin⟩ := hf.2.2.2.1 c (Or.inl hc)
+    have := hin.range (hi.m.wf z hz)
+    rw [hi.esz z hz] at this
+    exact ⟨z, hz, hi.esz z hz, this⟩
+
+/-- slot reuse: after `destroy(obj)` the next `create()` constructs in the cell
+`obj` occupied -/
+theorem sopx_slot_reuse (st : Nat) (p p1 : SOPx) (c : Nat) (r : Option Nat)
+    (hd : sxstep st p (.destroy c) = some (p1, r)) :
+    ∃ p2, sxstep st p1 .create = some (p2, some c) ∧ p2.ctor = c :: p1.ctor := by
+  simp only [sxstep] at hd
+  split at hd
+  · simp only [Option.some.injEq, Prod.mk.injEq] at hd
+    obtain ⟨rfl, _⟩ := hd
+    simp [sxstep, SOP.create, SOP.destroy, Pool.alloc, Pool.release]
+  · cases hd
+
+/-! ### igris::pool: the iterator over allocated cells -/
+
+/-- `unlinked_iterator::next()` from `num`: the smallest allocated cell index
+above `num`, or −1 (= `end()`) when there is none; the do/while terminates -/
+theorem ipool_iterator_next (e n : Nat) (he : 0 < e) (ops : List IOp) (s : IState)
+    (hr : irun ⟨IPool.init (n * e) e, []⟩ ops = some s) (num : Int) (hnum : -1 ≤ num) :
+    (s.pool.iterNext num = -1 ∧ ∀ j : Int, num < j → j < n → j.toNat * e ∉ s.live) ∨
+    (∃ j : Int, s.pool.iterNext num = j ∧ num < j ∧ j < n ∧ j.toNat * e ∈ s.live ∧
+      ∀ k : Int, num < k → k < j → k.toNat * e ∉ s.live) :=
+  ipool_iterNext_spec e n he ops s hr num hnum
+
+/-- `for (it = begin(); it != end(); ++it)` visits exactly the allocated cells,
+each once, in ascending order — as many as there are live cells -/
+theorem ipool_iteration_visits_live_cells (e n : Nat) (he : 0 < e) (ops : List IOp) (s : IState)
+    (hr : irun ⟨IPool.init (n * e) e, []⟩ ops = some s) :
+    s.pool.iterAll = ((List.range n).filter (fun i : Nat => decide (i * e ∈ s.live))).map (fun i : Nat => (i : Int)) ∧
+    s.pool.iterAll.length = s.live.length ∧
+    (∀ i ∈ s.pool.iterAll, 0 ≤ i ∧ i < n ∧ i.toNat * e ∈ s.live) ∧
+    (∀ c ∈ s.live, ∃ i ∈ s.pool.iterAll, c = i.toNat * e) :=
+  ⟨ipool_iterAll_eq e n he ops s hr, ipool_iterAll_length e n he ops s hr,
+    fun i hi => ipool_iter_cell_in_zone e n he ops s hr i hi,
+    fun c hc => ipool_iter_visits_all e n he ops s hr c hc⟩
+
+/-- igris::pool: a cell given back with `put` is returned by the next `get` -/
+theorem ipool_put_then_get (s s1 : IState) (c : Nat) (r : Option Nat)
+    (hp : istep s (.put (some c)) = some (s1, r)) : ∃ s2, istep s1 .get = some (s2, some c) :=
+  ipool_put_then_get_returns_it s s1 c r hp
+
+/-! non-vacuity of the multi-zone hypotheses -/
+
+example : (⟨16, 64, 16⟩ : Zone).WF := ⟨by decide, by decide⟩
+example : ∃ s, mrun MState.init [.engage 16 64 16, .alloc, .alloc, .free 64, .engage 104 48 8, .alloc, .alloc] = some s ∧
+    s.live = [136, 144, 48] ∧ s.pool.avail = 7 ∧ capacity s.zones = 10 := ⟨_, rfl, by decide⟩
+example : ∃ s, mrun MState.init [.engage 16 64 16, .alloc, .alloc, .free 64, .engage 104 48 8, .alloc, .alloc,
+      .free 144, .free 136] = some s ∧ (∀ z ∈ s.zones, 0 < z.base ∨ z.base + z.size ≤ 0) ∧
+    s.pool.free = [136, 144, 128, 120, 112, 104, 64, 32, 16] ∧
+    (mrunP 0 (slistInit (fun _ => 0) 0) [.engage 16 64 16, .alloc, .alloc, .free 64, .engage 104 48 8, .alloc, .alloc,
+      .free 144, .free 136]) 136 = 144 := ⟨_, rfl, by decide, by decide, by decide⟩
+example : ∃ p, sxrun 16 (SOPx.init 12 4 2) [.create, .create, .engage 64 2, .create, .destroy 16, .create] = some p ∧
+    p.sop.objs = [16, 80, 0] ∧ p.ctor = [16, 80, 0, 16] ∧ p.dtor = [16] := ⟨_, rfl, by decide⟩
 
 end Igris.C10
